@@ -1,6 +1,6 @@
 // Conformance driver for nitro::options::parser (C01-C04, C11, C12, C14).
 // case:  {"cfg": {"decl":[{kind,name,letter,rev,dflt,env,optional}], "allowed":n|-1, "greedy":bool},
-//         "env": [bytes | "unset" ...],  "calls": [argv, argv, ...]}
+//         "env": [bytes | "unset" ...],  "calls": [argv, argv, ...], optional "envs": [env per call]}
 // observation: {"calls":[ {"oc": "ok"|"parsing_error"|"parser_error"|"nitro_exception"|"std_exception"|"other",
 //                          "st":[{val,list,count,prov}], "pos":[...], "get":[...]} ... ]}
 // All calls of one case are made on ONE parser object (that is the point of C14).
@@ -168,10 +168,8 @@ static J project(const nitro::options::arguments& a, const J& cfg)
     return o;
 }
 
-static J run(const J& c)
+static void establish(const J& env)
 {
-    const J& cfg = c["cfg"];
-    const J& env = c["env"];
     for (std::size_t k = 0; k < env.size(); k++)
     {
         if (env[k].k == J::Str)
@@ -179,6 +177,15 @@ static J run(const J& c)
         else
             setenv(env_name(k + 1).c_str(), env[k].as_bytes().c_str(), 1);
     }
+}
+
+static J run(const J& c)
+{
+    const J& cfg = c["cfg"];
+    const J& env = c["env"];
+    // "envs": the environment changes between the calls; the parser is declared under the environment of the last one
+    bool per_call = c.has("envs");
+    establish(per_call ? c["envs"][c["envs"].size() - 1] : env);
     J out = J::obj();
     J calls = J::arr();
     bool via_inputs = c.has("via") && c["via"].str() == "inputs";
@@ -212,6 +219,8 @@ static J run(const J& c)
                 p = std::move(q);
             }
         }
+        if (per_call)
+            establish(c["envs"][k]);
         auto toks = c["calls"][k].as_bytes_list();
         std::vector<const char*> argv;
         argv.push_back("prog");
